@@ -158,10 +158,16 @@ XalanTransformer::~XalanTransformer()
         DeleteFunctor<XalanParsedSource>(m_memoryManager));
 
     // Clean up the Function map.
-    for_each(
-        m_functions.begin(),
-        m_functions.end(),
-        MapValueDeleteFunctor<FunctionMapType>(m_memoryManager));
+    // (empty() does not create the head node of a container that has
+    // never been used, which begin() would; a destructor must not
+    // allocate memory.)
+    if (m_functions.empty() == false)
+    {
+        for_each(
+            m_functions.begin(),
+            m_functions.end(),
+            MapValueDeleteFunctor<FunctionMapType>(m_memoryManager));
+    }
 
 #if defined(XALAN_USE_ICU)
     // Uninstall the ICU collation compare functor, and destroy it...
